@@ -177,7 +177,137 @@ pub mod ext {
         }
     }
 
+
+    // ---- values built through the public mutators (in place, so the B-tree maps keep the concrete
+    // shape CBMC needs: a value that comes back inside a `Result` from the parser is merged with the
+    // error paths and its map root turns symbolic - measured: Display of a parsed list did not finish
+    // symbolic execution in 10 min, the same list built by setters takes seconds) ----
+    use crate::xspec::{KV, PModel, TModel, UModel};
+    use crate::spec::{NOTXT, VMAX};
+
+    /// 0..=2 attributes, then optionally one keyword (key = any 2 bytes, 0..=2 types = any bytes)
+    fn u_built(with_kw: bool) {
+        let mut u = UnicodeExtensionList::default();
+        let mut m = UModel { attrs: [NOTXT; VMAX], nattrs: 0, kw: KV::new() };
+        let mut i = 0;
+        while i < 2 {
+            let t = sym::tok9();
+            sym::note("attr", &t);
+            let inf = spec::info(&t);
+            if u.set_attribute(t.bytes()).is_ok() {
+                k::assume(inf.is_utype()); // exact acceptance is C10's subject
+                spec::insert_sorted_unique(&mut m.attrs, &mut m.nattrs, inf.lower());
+            }
+            i += 1;
+        }
+        if with_kw {
+            let key = sym::tok_len(2);
+            let v0 = sym::tok9();
+            let v1 = sym::tok9();
+            let nv = k::u8() as usize;
+            k::assume(nv <= 2);
+            sym::note("key", &key);
+            sym::note("v0", &v0);
+            sym::note("v1", &v1);
+            let (ki, i0, i1) = (spec::info(&key), spec::info(&v0), spec::info(&v1));
+            let arr: [&[u8]; 2] = [v0.bytes(), v1.bytes()];
+            if u.set_keyword(key.bytes(), &arr[..nv]).is_ok() {
+                let vals = [(i0.is_utype(), i0.lower()), (i1.is_utype(), i1.lower())];
+                k::assume(crate::c10::kv_set(&mut m.kw, ki.is_ukey(), ki.lower(), &vals, nv));
+            }
+            }
+        cover!(!with_kw || (m.kw.nkeys == 1 && m.kw.nvals[0] == 2 && m.nattrs == 2));
+        cover!(m.nattrs == 2);
+        cover!(m.nattrs == 0 && m.kw.nkeys == 0);
+        let s = u.to_string();
+        let mut buf = [0u8; OUT];
+        let mut n = 0;
+        xspec::write_u(&mut buf, &mut n, &m);
+        assert!(bytes_are(s.as_bytes(), &buf, n), "-u- Display: '-u', attributes sorted, then the keyword with its types; nothing when empty");
+        core::mem::forget((s, u));
+    }
+
+    /// optional tlang (language[-region]) and optionally one field (key any 2 bytes, 0..=2 values)
+    fn t_built() {
+        let mut t = TransformExtensionList::default();
+        let mut m = TModel { tlang: None, fields: KV::new() };
+        if k::bool() {
+            let (li, lm) = sym::langid_shape(false, true, 0);
+            let _ = t.set_tlang(li);
+            m.tlang = Some(lm);
+        }
+        if k::bool() {
+            let key = sym::tok_len(2);
+            let v0 = sym::tok9();
+            let v1 = sym::tok9();
+            let nv = k::u8() as usize;
+            k::assume(nv <= 2);
+            sym::note("key", &key);
+            sym::note("v0", &v0);
+            sym::note("v1", &v1);
+            let (ki, i0, i1) = (spec::info(&key), spec::info(&v0), spec::info(&v1));
+            let arr: [&[u8]; 2] = [v0.bytes(), v1.bytes()];
+            if t.set_tfield(key.bytes(), &arr[..nv]).is_ok() {
+                let vals = [(i0.is_utype(), i0.lower()), (i1.is_utype(), i1.lower())];
+                k::assume(crate::c10::kv_set(&mut m.fields, ki.is_tkey(), ki.lower(), &vals, nv));
+            }
+        }
+        cover!(m.tlang.is_some() && m.fields.nkeys == 1 && m.fields.nvals[0] == 2);
+        cover!(m.tlang.is_none() && m.fields.nkeys == 0);
+        let s = t.to_string();
+        let mut buf = [0u8; OUT];
+        let mut n = 0;
+        xspec::write_t(&mut buf, &mut n, &m);
+        assert!(bytes_are(s.as_bytes(), &buf, n), "-t- Display: '-t', tlang, then the field with its values; nothing when empty");
+        core::mem::forget((s, t));
+    }
+
+    /// a whole Locale built in place: language-region id, one attribute, one tfield, one private tag
+    fn locale_built() {
+        let (id, idm) = sym::langid_shape(false, true, 0);
+        let mut loc = Locale::from(id);
+        let mut um = UModel { attrs: [NOTXT; VMAX], nattrs: 0, kw: KV::new() };
+        let mut tm = TModel { tlang: None, fields: KV::new() };
+        let mut pm = PModel { tags: [NOTXT; VMAX], ntags: 0 };
+        let a = sym::tok9();
+        let key = sym::tok_len(2);
+        let v0 = sym::tok9();
+        let tag = sym::tok9();
+        sym::note("attr", &a);
+        sym::note("tkey", &key);
+        sym::note("tval", &v0);
+        sym::note("tag", &tag);
+        let (ai, ki, vi, gi) = (spec::info(&a), spec::info(&key), spec::info(&v0), spec::info(&tag));
+        if loc.extensions.unicode.set_attribute(a.bytes()).is_ok() {
+            k::assume(ai.is_utype());
+            spec::insert_sorted_unique(&mut um.attrs, &mut um.nattrs, ai.lower());
+        }
+        let arr: [&[u8]; 1] = [v0.bytes()];
+        if loc.extensions.transform.set_tfield(key.bytes(), &arr[..]).is_ok() {
+            let vals = [(vi.is_utype(), vi.lower()), (false, NOTXT)];
+            k::assume(crate::c10::kv_set(&mut tm.fields, ki.is_tkey(), ki.lower(), &vals, 1));
+        }
+        if loc.extensions.private.add_tag(tag.bytes()).is_ok() {
+            k::assume(gi.is_private());
+            xspec::insert_sorted_multi(&mut pm.tags, &mut pm.ntags, gi.lower());
+        }
+        cover!(um.nattrs == 1 && tm.fields.nkeys == 1 && pm.ntags == 1);
+        let s = loc.to_string();
+        let mut buf = [0u8; OUT];
+        let mut n = 0;
+        spec::write_langid(&mut buf, &mut n, &idm);
+        xspec::write_t(&mut buf, &mut n, &tm);
+        xspec::write_u(&mut buf, &mut n, &um);
+        xspec::write_p(&mut buf, &mut n, &pm);
+        assert!(bytes_are(s.as_bytes(), &buf, n), "Locale Display: id, then extensions in the order t, u, x; nothing for an empty extension");
+        core::mem::forget((s, loc));
+    }
+
     proofs! {
+    [string, push, insrem, sortt] fn c04_u_built_attrs() { u_built(false) }
+    [string, push, insrem, sortt] fn c04_u_built_kw() { u_built(true) }
+    [string, push, sortt, sortv, boxed] fn c04_t_built() { t_built() }
+    [string, push, insrem, sortt, sortv, boxed] fn c04_locale_built() { locale_built() }
     [string, push, sortt] fn c04_u_display_3_3() { u_display([3, 3]) }
     [string, push, sortt] fn c04_u_display_3_2_4() { u_display([3, 2, 4]) }
     [string, push, sortt] fn c04_u_display_2_3_2_3() { u_display([2, 3, 2, 3]) }
